@@ -65,7 +65,7 @@ impl Check for C10 {
                     let policy = *g.pick(&["accept", "accept", "accept_slow", "refuse", "refuse_slow", "blackhole", "accept_too_slow"]);
                     // "overlong": a name of more than 255 bytes cannot be encoded as a destination; the request fails
                     // locally, after the stream was opened (state left behind by a failed operation)
-                    let dns = if named { *g.pick(&["ok", "ok", "slow", "fail", "unknown", "hang", "overlong"]) } else { "literal" };
+                    let dns = if named { *g.pick(&["ok", "ok", "slow", "fail", "unknown", "hang", "overlong", "empty"]) } else { "literal" };
                     let overlong = format!("{}.host{}.test", "o".repeat(g.range(245, 300) as usize), i);
                     json!({"host": if dns == "overlong" { overlong } else if named { format!("host{}.test", i) } else { format!("203.0.113.{}", 10 + i) }, "addr": format!("203.0.113.{}", 10 + i), "policy": policy,
                         "delay_ms": match policy { "accept_slow" | "refuse_slow" => g.range(1, 14_000), "accept_too_slow" => g.range(15_500, 20_000), _ => 0 }, "dns": dns, "dns_delay_ms": g.range(100, 9_000)})
@@ -141,7 +141,7 @@ impl Check for C10 {
         out
     }
     fn rule(&self) -> &'static str {
-        "one case = (down mode, 1 case in 7) the proxy server itself refuses connections (at once or after up to 4 s), closes them, answers with something that is not TLS, rejects the password, dies right after the TLS handshake, or crashes (listener gone, every connection cut) after serving 1-3 requests: 1-4 requests through create_proxy_stream / SOCKS5 / HTTP CONNECT must each complete promptly with an error and exactly one failure reply, dial nothing, and once the server is (re)started 1-3 further requests must succeed; or (real mode) 1-6 possibly concurrent requests through create_proxy_stream / SOCKS5 / HTTP CONNECT / a raw TLS peer whose destination header is spread over 1-6 data frames (the last cut between the two port bytes) to 1-4 hosts whose targets accept (after 0-14 s or after more than 15 s), refuse (at once or late) or black-hole and whose names resolve, resolve slowly, fail, are unknown, hang, or are too long to be encoded (the request fails locally after its stream was opened and must leave the pooled session usable); or (script mode) 1-6 racing opens against a scripted TLS server answering each open with an empty SYNACK at 0..29 s / around 30 s +-300 ms / after 30 s, an error text, twice, for an unknown id first, never, by killing the session at a seeded instant (connection cut, fatal alert), or by breaking the connection for the client's writes only (the next write on that session fails: the SYN of a later open that reuses it); oracle on virtual time, the simulated network's connect log and every byte the local application receives; every case is non-trivial; distinct = distinct (plan hash, poll-order fingerprint)"
+        "one case = (down mode, 1 case in 7) the proxy server itself refuses connections (at once or after up to 4 s), closes them, answers with something that is not TLS, rejects the password, dies right after the TLS handshake, or crashes (listener gone, every connection cut) after serving 1-3 requests: 1-4 requests through create_proxy_stream / SOCKS5 / HTTP CONNECT must each complete promptly with an error and exactly one failure reply, dial nothing, and once the server is (re)started 1-3 further requests must succeed; or (real mode) 1-6 possibly concurrent requests through create_proxy_stream / SOCKS5 / HTTP CONNECT / a raw TLS peer whose destination header is spread over 1-6 data frames (the last cut between the two port bytes) to 1-4 hosts whose targets accept (after 0-14 s or after more than 15 s), refuse (at once or late) or black-hole and whose names resolve, resolve slowly, fail, are unknown, hang, resolve to no address at all, or are too long to be encoded (the request fails locally after its stream was opened and must leave the pooled session usable); or (script mode) 1-6 racing opens against a scripted TLS server answering each open with an empty SYNACK at 0..29 s / around 30 s +-300 ms / after 30 s, an error text, twice, for an unknown id first, never, by killing the session at a seeded instant (connection cut, fatal alert), or by breaking the connection for the client's writes only (the next write on that session fails: the SYN of a later open that reuses it); oracle on virtual time, the simulated network's connect log and every byte the local application receives; every case is non-trivial; distinct = distinct (plan hash, poll-order fingerprint)"
     }
     fn real_components(&self) -> Vec<&'static str> {
         vec!["Client::create_proxy_stream (30 s SYNACK wait), session pool", "SOCKS5 and HTTP front-ends (reply / status)", "Session (client)", "real mode: Server::listen, TcpProxyHandler (15 s connect timeout, SYNACK with reason), resolve_host_with_cache (10 s)", "rustls both ways"]
@@ -337,6 +337,8 @@ async fn run_real(plan: &Value) -> Outcome {
             "slow" => world::with(|w| w.net.dns.insert(name.into(), DnsEntry { addrs: vec![addr], delay_us: dd, fail: false, hang: false })),
             "fail" => world::with(|w| w.net.dns.insert(name.into(), DnsEntry { addrs: vec![], delay_us: dd / 10, fail: true, hang: false })),
             "hang" => world::with(|w| w.net.dns.insert(name.into(), DnsEntry { addrs: vec![addr], delay_us: 0, fail: false, hang: true })),
+            // the resolver answers, with no address at all
+            "empty" => world::with(|w| w.net.dns.insert(name.into(), DnsEntry { addrs: vec![], delay_us: dd / 10, fail: false, hang: false })),
             _ => None,
         };
     }
